@@ -8,11 +8,14 @@ Byte strings are `List Nat`; in the concrete witnesses below
   "," = 44   ":" = 58   "{" = 123.
 
 NOT decided here (see lib/props.py `partial`): selector/matcher evaluation on the tags tree, the PromQL
-parser, range/math/label functions, topk/bottomk/stddev/stdvar/quantile, vector arithmetic, float64
+parser, range/math/label functions, topk/bottomk/stddev/stdvar/quantile, on()/ignoring()/group_left/group_right and scalar
+operands of binary operators (the vector–vector case without matching clause is §6), float64
 rounding of the avg quotient (the theorems speak about exact rationals over integer samples).
 -/
 import SigModel.Model.Promql
 import SigModel.Lemmas.C09e
+import SigModel.Lemmas.C09bin
+import SigModel.Spec.Metrics
 
 namespace SigModel.Props.C09
 open SigModel.Promql
@@ -275,5 +278,138 @@ theorem bucket_floor (ts step : Nat) (h : 0 < step) :
 
 /-- two timestamps share a bucket iff they lie in the same aligned window -/
 example : bucket 119 60 = 60 ∧ bucket 120 60 = 120 ∧ bucket 59 60 = 0 := by decide
+
+/-! ## 6. binary operators between two result vectors match label sets
+
+Model: SigModel/Model/PromqlBin.lean (HelperQueryArithmeticAndLogical, vector–vector, no on()/ignoring()),
+tied by the suite `promqlbin`.  A group id is the metric name followed by the label part; the code finds the
+partner of a left series by cutting the id at len(MetricName) and prefixing the right metric name. -/
+
+section binop
+open SigModel.PromqlBin
+
+/-- C09.6a the cut returns the label part for EVERY metric name and EVERY label part — any bytes, also
+`{ } , : = "` inside label values or the metric name (the seeded alternative, splitting the id on '{', does not). -/
+theorem cutLabel_is_label_part (name part : Str) : cutLabel name (name ++ part) = part :=
+  Lemmas.C09bin.cutLabel_append name part
+
+/-- … and the partner id is the right metric name followed by the same label part. -/
+theorem partner_is_same_label_part (lname rname part : Str) :
+    partnerId lname rname (lname ++ part) = rname ++ part :=
+  Lemmas.C09bin.partnerId_append lname rname part
+
+/-- C09.6b arithmetic, comparison and `and` (every operator but or / unless), for ALL vectors whose left ids start
+with the left metric name: the answer holds exactly the left series whose LABEL PART also occurs on the right —
+matching is equality of label parts, whatever bytes they contain and whatever the two metric names are. -/
+theorem binop_matches_label_parts (op : Op) (b : Bool) (l r : Res) (hop : op ≠ .or ∧ op ≠ .unless) (part : Str) :
+    l.name ++ part ∈ outIds (binop op b l r) ↔ l.name ++ part ∈ vecIds l ∧ r.name ++ part ∈ vecIds r := by
+  rw [Lemmas.C09bin.mem_binop_match op b l r hop, Lemmas.C09bin.partnerId_append]
+
+/-- … and nothing else is in the answer: every answer id is a left id. -/
+theorem binop_ids_are_left_ids (op : Op) (b : Bool) (l r : Res) (hop : op ≠ .or ∧ op ≠ .unless) (id : Str)
+    (h : id ∈ outIds (binop op b l r)) : id ∈ vecIds l :=
+  ((Lemmas.C09bin.mem_binop_match op b l r hop id).1 h).1
+
+/-- C09.6c `unless` keeps exactly the left series whose label part does NOT occur on the right (right ids
+well-formed: they start with the right metric name). -/
+theorem unless_matches_label_parts (b : Bool) (l r : Res) (hr : wellFormed r) (part : Str) :
+    l.name ++ part ∈ outIds (binop .unless b l r) ↔ l.name ++ part ∈ vecIds l ∧ r.name ++ part ∉ vecIds r := by
+  rw [Lemmas.C09bin.mem_binop_unless, Lemmas.C09bin.mem_unlessDeleted l r hr]
+
+/-- C09.6d `a and b` and `a unless b` PARTITION the left vector: every left series is in exactly one of them
+(both vectors well-formed; no assumption on the bytes of names and label parts). -/
+theorem and_unless_partition (b : Bool) (l r : Res) (hl : wellFormed l) (hr : wellFormed r) (id : Str) :
+    (id ∈ vecIds l ↔ (id ∈ outIds (binop .and b l r) ∨ id ∈ outIds (binop .unless b l r))) ∧
+    ¬ (id ∈ outIds (binop .and b l r) ∧ id ∈ outIds (binop .unless b l r)) := by
+  have hand := fun part => binop_matches_label_parts .and b l r (by decide) part
+  have hunl := fun part => unless_matches_label_parts b l r hr part
+  constructor
+  · constructor
+    · intro h
+      obtain ⟨p, rfl⟩ := hl id h
+      by_cases hp : r.name ++ p ∈ vecIds r
+      · exact Or.inl ((hand p).2 ⟨h, hp⟩)
+      · exact Or.inr ((hunl p).2 ⟨h, hp⟩)
+    · rintro (h | h)
+      · exact binop_ids_are_left_ids .and b l r (by decide) id h
+      · exact ((Lemmas.C09bin.mem_binop_unless b l r id).1 h).1
+  · rintro ⟨h1, h2⟩
+    have hid := binop_ids_are_left_ids .and b l r (by decide) id h1
+    obtain ⟨p, rfl⟩ := hl id hid
+    exact ((hunl p).1 h2).2 ((hand p).1 h1).2
+
+/-- non-vacuity / the seeded input class: hits{route:/api/{id}, on both sides is matched (label value with '{');
+bytes: "h" = 104, "e" = 101, "{route:/{x}," abbreviated as [123, 47, 123, 120, 125, 44]. -/
+example :
+    outIds (binop .div false
+      { name := [104], series := [([104, 123, 47, 123, 120, 125, 44], [(10, 40)])] }
+      { name := [101], series := [([101, 123, 47, 123, 120, 125, 44], [(10, 4)])] }) = [[104, 123, 47, 123, 120, 125, 44]] := by
+  decide +kernel
+
+end binop
+
+/-! ## 7. the end-to-end SPECIFICATION of binary operators (Spec/Metrics.lean `evalBin`): matching on equal label sets -/
+
+section specbin
+open SigModel.Spec.Metrics
+
+/-- the partner of a label set is an element of the right vector with exactly this label set … -/
+theorem spec_partner_sound (r : List Elem) (ls : List (String × String)) (y : Elem) (h : findElem r ls = some y) :
+    y ∈ r ∧ y.1 = ls := by
+  simp only [findElem] at h
+  exact ⟨List.mem_of_find?_eq_some h, by simpa using List.find?_some h⟩
+
+/-- … and it is unique when the right label sets are pairwise different (one-to-one matching: a partial bijection
+between the two vectors' label sets). -/
+theorem spec_partner_unique (r : List Elem) (hnd : (r.map (·.1)).Nodup) (y y' : Elem)
+    (hy : y ∈ r) (hy' : y' ∈ r) (h : y.1 = y'.1) : y = y' := by
+  induction r with
+  | nil => cases hy
+  | cons a t ih =>
+    simp only [List.map_cons, List.nodup_cons, List.mem_map, not_exists, not_and] at hnd
+    rcases List.mem_cons.1 hy with rfl | hy1 <;> rcases List.mem_cons.1 hy' with rfl | hy2
+    · rfl
+    · exact absurd h.symm (hnd.1 y' hy2)
+    · exact absurd h (hnd.1 y hy1)
+    · exact ih hnd.2 hy1 hy2
+
+
+/-- S1 arithmetic, comparison and `and`: the result label sets are exactly the left label sets that have a partner (in left order). -/
+theorem spec_labels (op : BinOp) (b : Bool) (l r : List Elem) (hop : op ≠ .or ∧ op ≠ .unless) :
+    (evalBin op b l r).map (·.1) = (l.filter (fun x => (findElem r x.1).isSome)).map (·.1) := by
+  have h1 : (op == BinOp.or) = false := by simp [hop.1]
+  have h2 : (op == BinOp.unless) = false := by simp [hop.2]
+  simp only [evalBin, h1, Bool.false_eq_true, if_false, List.append_nil]
+  induction l with
+  | nil => rfl
+  | cons x t ih =>
+    cases h : findElem r x.1 <;> simp [leftEntry, h, h1, h2, ih]
+
+/-- S2 `unless` keeps every left element without partner, with all its samples … -/
+theorem spec_unless_keeps (b : Bool) (l r : List Elem) (x : Elem) (hx : x ∈ l) (hn : findElem r x.1 = none) :
+    (x.1, allVals x) ∈ evalBin .unless b l r := by
+  simp only [evalBin, List.mem_append, List.mem_filterMap]
+  exact Or.inl ⟨x, hx, by simp [leftEntry, hn]⟩
+
+/-- … and judges nothing else: a judged sample of `a unless b` belongs to a left element without partner.  Together with S1
+(`and`): the left label sets with a partner and those without partition the left vector (filter p / filter ¬p). -/
+theorem spec_unless_judged (b : Bool) (l r : List Elem) (e : List (String × String) × List (Nat × BinPt))
+    (he : e ∈ evalBin .unless b l r) (t : Nat) (v : Rat) (hv : (t, BinPt.val v) ∈ e.2) :
+    ∃ x ∈ l, x.1 = e.1 ∧ findElem r x.1 = none := by
+  simp only [evalBin, List.mem_append, List.mem_filterMap] at he
+  rcases he with ⟨x, hx, hle⟩ | h
+  · cases hf : findElem r x.1 with
+    | none =>
+      simp [leftEntry, hf] at hle
+      exact ⟨x, hx, by rw [← hle], hf⟩
+    | some y =>
+      simp [leftEntry, hf, matchedPts] at hle
+      subst hle
+      simp only [List.mem_filterMap] at hv
+      obtain ⟨p, _, hp⟩ := hv
+      split at hp <;> simp at hp
+  · simp at h
+
+end specbin
 
 end SigModel.Props.C09
